@@ -16,7 +16,10 @@ use crate::{
 use pyo3::prelude::*;
 use socket2::{Domain, Protocol, Socket, Type};
 use std::net::SocketAddr;
-use std::time::Duration;
+use std::time::{Duration, Instant};
+
+// The shortest timeout the socket accepts
+const MIN_TIMEOUT: Duration = Duration::from_millis(1);
 
 pub(crate) trait SnmpSocket
 where
@@ -132,25 +135,52 @@ where
         // Get buffer from pool
         let mut h = get_buffer_pool().acquire();
         let buf = h.as_mut();
+        // In the blocking mode the socket's read timeout limits
+        // the whole call, not every single recv: unwanted replies
+        // must not prolong the wait.
+        let timeout = self.get_io().read_timeout().ok().flatten();
+        let deadline = timeout.map(|t| Instant::now() + t);
+        let mut shortened = false;
         // We can catch unwanted replies, so do it in a loop
-        loop {
+        let result = loop {
             // Nested scope to release io early after receiving message
             let (msg, data) = {
                 let io = self.get_io();
-                let data = Self::recv_socket(io, buf)?;
+                let data = match Self::recv_socket(io, buf) {
+                    Ok(data) => data,
+                    Err(e) => break Err(e.into()),
+                };
                 // Decode message
-                (Self::Message::try_from(data)?, data)
+                match Self::Message::try_from(data) {
+                    Ok(msg) => (msg, data),
+                    Err(e) => break Err(e.into()),
+                }
             };
             match self.unwrap_pdu(msg, data) {
                 Some(ref pdu) => {
-                    return Python::with_gil(|py| Ok(T::to_python(pdu, iter, py)?.into()));
+                    break Python::with_gil(|py| Ok(T::to_python(pdu, iter, py)?.into()));
                 }
                 None => {
                     buf.reset();
+                    if let Some(deadline) = deadline {
+                        // Wait for the rest of the time only
+                        let left = deadline.saturating_duration_since(Instant::now());
+                        if left < MIN_TIMEOUT
+                            || self.get_io().set_read_timeout(Some(left)).is_err()
+                        {
+                            break Err(SnmpError::WouldBlock.into());
+                        }
+                        shortened = true;
+                    }
                     continue;
                 }
             }
+        };
+        if shortened {
+            // Restore the timeout for the next calls
+            let _ = self.get_io().set_read_timeout(timeout);
         }
+        result
     }
 
     fn send_request<'a, T, V>(&mut self, req: V, py: Python) -> PyResult<()>
